@@ -256,14 +256,77 @@ def rule_validated(ctx):
 
 
 def rule_guard_state(ctx):
-    """O3.3: no subclass assigns the guard attributes; O3.4: each forwards empty flag and length to the base constructor."""
+    """
+    O3.3/O3.4: whatever the field type, after its constructor ran the guard state is the declaration's: the length
+    range is built from the declared length text, the empty flag and the data format are the ones passed in.  Decided by
+    interpreting every field class's own constructor (rule parsing stubbed).  Outside constructors no method of a field
+    class assigns the guard attributes.
+    """
+    import token as _token
+
+    from ..absint import AbsIter, ClassRef
+    from ..world import World
+
     model = ctx.model
+    classes = field_classes(model)
+    ctx.res.minimum("O3.4", 1)
     ctx.res.minimum("O3.3", 9)
-    ctx.res.minimum("O3.4", 9)
-    for cls in field_classes(model):
-        where = "%s:%d (%s)" % (cls.module.relpath, cls.node.lineno, cls.name)
+    names = [cls.qualname for cls in classes]
+
+    def cell(ch):
+        class_qualname = ch.choose("field class", names)
+        flag = ch.choose("empty allowed", [False, True])
+        format_name = ch.choose("format", ["delimited", "fixed"])
+        cls = model.cls(class_qualname)
+        made = []
+
+        @stub
+        def range_stub(interp_, args, kwargs):
+            obj = Obj(model.cls("cutplace.ranges.Range"), {"_description": args[0] if args else None, "_items": [(2, 2)], "_lower_limit": 2,
+                                                          "_upper_limit": 2, "validate": stub(lambda i, a, k: None)}, label="Range(%r)" % (args[0] if args else None,))
+            made.append(obj)
+            return obj
+
+        @stub
+        def decimal_range_stub(interp_, args, kwargs):
+            return Obj(model.cls("cutplace.ranges.DecimalRange"), {"_description": args[0] if args else None, "_precision": 2, "_scale": 5,
+                                                                  "_items": None}, label="DecimalRange")
+
+        sequence = [(_token.NAME, "ab", (1, 0), (1, 2), "ab"), (_token.ENDMARKER, "", (1, 2), (1, 2), "")]
+        stubs = {"cutplace.ranges.Range": range_stub, "cutplace.ranges.DecimalRange": decimal_range_stub,
+                 "cutplace.ranges.create_range_from_length": stub(lambda i, a, k: Obj(model.cls("cutplace.ranges.Range"), {}, label="from length")),
+                 "cutplace._tools.tokenize_without_space": stub(lambda i, a, k: AbsIter(lambda index: sequence[index] if index < len(sequence) else AbsIter.STOP, "tokens")),
+                 "cutplace._tools.length_of_int": stub(lambda i, a, k: 2)}
+        externals = {"fnmatch.translate": lambda i, a, k: "x", "re.compile": lambda i, a, k: Obj("re.Pattern", {})}
+        interp = Interp(model, ch, stubs=stubs, externals=externals)
+        world = World(model, interp, ch)
+        data_format = world.data_format(format_name)
+        rule = {"DateTimeFieldFormat": "DD.MM.YYYY", "ChoiceFieldFormat": "ab", "ConstantFieldFormat": "ab"}.get(cls.name, "")
+        key = "%s empty-allowed=%s %s" % (cls.name, flag, format_name)
+        try:
+            field = interp.instantiate(ClassRef(cls), ["f0", flag, "LENGTH-TEXT", rule, data_format], {})
+        except AbsRaise as raised:
+            if cls.name == "ConstantFieldFormat" and flag and exc_name(raised.value) == "InterfaceError":
+                return None  # a Constant that may be empty is refused by its own rule
+            return (key, "constructor raised " + exc_name(raised.value), "conforms")
+        problems = []
+        length = field.attrs.get("_length")
+        if not (isinstance(length, Obj) and length.attrs.get("_description") == "LENGTH-TEXT" and isinstance(length.cls, type(cls))
+                and length.cls.qualname == "cutplace.ranges.Range"):
+            problems.append("length guard is %r instead of the Range of the declared length" % (length,))
+        if field.attrs.get("_is_allowed_to_be_empty") is not flag:
+            problems.append("empty flag is %r instead of the declared %r" % (field.attrs.get("_is_allowed_to_be_empty"), flag))
+        if field.attrs.get("_data_format") is not data_format:
+            problems.append("data format replaced")
+        return (key, "; ".join(problems) if problems else "conforms", "conforms")
+
+    decide(ctx, "O3.4", "guard state after each field type's constructor", BASE + ".__init__", cell, min_cells=30)
+
+    for cls in classes:
         assigned = []
         for method in cls.methods.values():
+            if method.name == "__init__":
+                continue
             for node in walk_own(method.node):
                 targets = []
                 if isinstance(node, ast.Assign):
@@ -274,43 +337,15 @@ def rule_guard_state(ctx):
                     if isinstance(target, ast.Attribute) and isinstance(target.value, ast.Name) and target.value.id == "self" \
                             and target.attr in GUARD_STATE:
                         assigned.append((target.attr, method.name, node.lineno))
-        what = "%s leaves the guard state of the base constructor alone" % cls.name
+        what = "%s: no method besides the constructor assigns the guard state" % cls.name
         if assigned:
             for attr, method_name, line in assigned:
                 ctx.res.fail("O3.3", what, "%s.%s:O3.3:self.%s" % (cls.qualname.replace("cutplace.", ""), method_name, attr),
                              "%s:%d (%s.%s)" % (cls.module.relpath, line, cls.name, method_name),
-                             "%s.%s re-assigns self.%s after the base constructor: the %s guard of this type no longer "
-                             "follows the declaration" % (cls.name, method_name, attr, attr.strip("_")))
+                             "%s.%s re-assigns self.%s: the %s guard of this type no longer follows the declaration"
+                             % (cls.name, method_name, attr, attr.strip("_")))
         else:
             ctx.res.ok("O3.3", what, True)
-        init = cls.methods.get("__init__")
-        what = "%s forwards its empty flag and length text unchanged to the base constructor" % cls.name
-        if init is None:
-            ctx.res.ok("O3.4", what + " (inherits __init__)", True)
-            continue
-        params = [a.arg for a in init.node.args.args]
-        supers = [n for n in walk_own(init.node) if isinstance(n, ast.Call) and isinstance(n.func, ast.Attribute)
-                  and n.func.attr == "__init__" and isinstance(n.func.value, ast.Call) and dotted(n.func.value.func) == "super"]
-        if len(supers) != 1 or len(params) < 4:
-            ctx.res.fail("O3.4", what, "%s.__init__:O3.4:super" % cls.qualname.replace("cutplace.", ""), where,
-                         "%s.__init__ does not call super().__init__ exactly once" % cls.name)
-            continue
-        call = supers[0]
-        problems = []
-        for position, role in ((1, "empty flag"), (2, "length")):
-            argument = call.args[position] if len(call.args) > position else None
-            if not (isinstance(argument, ast.Name) and argument.id == params[position + 1]):
-                problems.append("%s is passed as %s instead of parameter %r" % (
-                    role, ast.unparse(argument) if argument is not None else "nothing", params[position + 1]))
-        # the forwarded parameters must not be re-bound before the call
-        for node in walk_own(init.node):
-            if isinstance(node, ast.Name) and isinstance(node.ctx, ast.Store) and node.id in params[2:4] and node.lineno <= call.lineno:
-                problems.append("parameter %s is re-bound before the base constructor runs" % node.id)
-        if problems:
-            ctx.res.fail("O3.4", what, "%s.__init__:O3.4:forward" % cls.qualname.replace("cutplace.", ""),
-                         "%s:%d (%s.__init__)" % (cls.module.relpath, call.lineno, cls.name), "; ".join(problems))
-        else:
-            ctx.res.ok("O3.4", what, True)
 
 
 def rule_characters(ctx):
